@@ -24,7 +24,7 @@ def sh(cmd, cwd=None, timeout=1800, env=None):
 
 def main():
     name, wt, prop = sys.argv[1:4]
-    checks = sys.argv[4:] or [prop]
+    checks = list(dict.fromkeys([prop] + sys.argv[4:]))
     d = os.path.join(HERE, 'seeded', name)
     os.makedirs(d, exist_ok=True)
     rc, diff = sh('git diff -- mpyc', cwd=wt)
